@@ -12,6 +12,7 @@ from harness.driver import Execution
 ASSUME = [
     "backend contract = spec/Backend section of Durable.tla / harness/backend.py (the real service is not available offline)",
     "detsched: time advances only when no thread is runnable (events at the same virtual instant interleave arbitrarily)",
+    "slow-holder schedules assume that a thread may be descheduled for up to 0.5 s (in total) while it holds a lock",
     "bounded: programs of <= 6 operations, nesting depth <= 2; TLC constants as listed per run",
 ]
 
